@@ -32,6 +32,17 @@ def run(ctx, rep):
             if cls == model.ATOMIC_OTHER:
                 rep.bad("R-ORD-4", "%s/%s" % (b["key"], atomics.callee_of(t)), "the count word is accessed by %s: only new/fetch_add/fetch_sub/load are covered by the release/acquire counting lemma" % atomics.callee_of(t), loc, tag)
                 continue
+            if cls == model.ATOMIC_CAS:
+                inc = atomics.cas_increment(t)
+                ik = "%s/cas" % b["key"]
+                if not atomics.receiver_is_count(F, B, t):
+                    rep.notes.append("atomic operation on something other than the count field (ignored): %s at %s" % (b["key"], loc))
+                elif inc is None:
+                    rep.bad("R-ORD-4", "%s/%s" % (b["key"], atomics.callee_of(t)), "the count word is changed by a compare-and-swap whose operands are not constants with new > current: only increments of this form are covered by the counting lemma (a decrement must be a Release fetch_sub whose returned value is tested)", loc, tag)
+                else:
+                    n_inc += 1
+                    rep.ok("R-ORD-INC", ik, "increment by compare-and-swap %d -> %d (any ordering is sound: a new handle derives from a live one; a failed swap changes nothing)" % inc, cfg=tag)
+                continue
             if cls == model.ATOMIC_NEW or cls == model.FENCE:
                 continue
             if not atomics.receiver_is_count(F, B, t):
